@@ -53,7 +53,12 @@ pub fn run(ctx: &mut Ctx) {
     }
     for case in ctx.cases("vtree_rand", 400, true) {
         ctx.run_case("vtree_rand", case, |ctx, rng| {
-            let k = rng.range(1, 12);
+            // mostly up to 12 leaves; now and then a large tree (up to 90 leaves, 179 nodes) so that
+            // the Euler-tour / segment-tree arithmetic of the lca structure meets deeper levels
+            let k = if rng.chance(1, 25) { rng.range(30, 90) } else { rng.range(1, 12) };
+            if k > 12 {
+                ctx.count("large_vtrees", 1);
+            }
             let (_, vt) = random_vtree(k, rng);
             manager_case(ctx, &vt);
         });
